@@ -19,4 +19,29 @@ PROPS = {
     },
 }
 
+PROPS["C15"] = {
+    "families": ["C15"],
+    "gen_deps": ["openflow13.oxxFieldHeaderMap", "openflow13.newMatchFieldHeader", "openflow13.MatchField"],
+    "exhaustive": True,
+    "rule": "every name of the spec table and of the regenerated registry x mask on/off x upper/lower/mixed case, near-miss and unknown names, "
+            "lookup-after-mutation of an earlier result (concurrently with a further lookup); header words: 7^4 boundary-byte words, all 256 values "
+            "of the packed byte, random words (thorough: all 2^32 words swept on the Go side). Non-trivial = the lookup succeeds / the word is non-zero.",
+    "trivial_outputs": ["err", "0 0 0 0 00000000", "00000000"],
+    "level_text": "Kernel-checked theorems: the REGENERATED registry table equals, entry by entry, the class/field/width table transcribed from OpenFlow 1.3.5 and OVS meta-flow.h; the registered names are exactly the supported ones; width doubling cannot wrap; the lookup model returns table values with mask flag and doubled width; header pack/unpack are mutual inverses for all 2^32 words (proof over bytes, not enumeration) using the regenerated MarshalHeader; independence of results from regenerated syntactic facts (map never written, lookup returns a fresh composite literal, entry only read field-wise). Ties: table and MarshalHeader regenerated from source; the real lookup is run on every name/case/mask and compared with model and spec.",
+    "level_note": "Trusted: Lean kernel; Spec.oxmTable (transcribed from memory); ofvextract; the model of FindFieldHeaderByName/UnmarshalHeader is hand-written and tied by the exhaustive differential run; strings.ToUpper modelled for ASCII names only; race-freedom is argued from the syntactic facts plus the concurrent lookup/mutation run, not proved about the Go memory model.",
+    "assumptions": COMMON_ASSUMPTIONS + ["names are ASCII (strings.ToUpper is modelled as ASCII upper-casing)"],
+}
+PROPS["C18"] = {
+    "families": ["C18"],
+    "gen_deps": ["openflow13.CTStates", "openflow13.NewCTStates", "openflow13.MatchField.MarshalHeader", "openflow13.oxxFieldHeaderMap"],
+    "exhaustive": True,
+    "rule": "from each of the 3^8 = 6561 abstract builder states (canonical history) each of the 16 operations; all call sequences of length <= 4 "
+            "from a fresh builder (69904); random histories of length 5..64. Observation = bytes of the encoded ct_state match field. "
+            "Non-trivial = at least one flag constrained.",
+    "trivial_outputs": ["0001d3080000000000000000"],
+    "level_text": "Kernel-checked induction over ALL call sequences of all lengths (and from any starting state) about the setter bodies regenerated from the Go source: per flag, mask bit = touched, value bit = polarity of the most recent call, bits 8..31 untouched; plus the byte layout of the encoded match field. Ties: setter bodies are re-translated on every run (a wrong offset or missing mask update changes the definition and breaks its step lemma) and the real builder is run exhaustively over one step from every abstract state and over all sequences up to length 4.",
+    "level_note": "Trusted: Lean kernel; ofvextract; Spec.ctWords as the meaning of a history; the hand-written field encoder model (header word from the regenerated MarshalHeader/registry) is tied by the differential run.",
+    "assumptions": COMMON_ASSUMPTIONS,
+}
+
 NOT_YET = {}
